@@ -99,6 +99,34 @@ def main():
                     failures.append((mid, out[-1500:]))
         finally:
             shutil.rmtree(tmp, ignore_errors=True)
+    # 3. changes under which the property still holds: no alarm
+    benign = [b for b in getattr(mutants, 'BENIGN', []) if not args.only or args.only.lower() in b[0].lower()
+              or args.only.upper() == b[1]]
+    if benign:
+        tmp = tempfile.mkdtemp(prefix='pyvc-selftest-')
+        try:
+            shutil.copytree(os.path.join(REPO, 'src'), os.path.join(tmp, 'src'))
+            for (bid, prop, rel, edits) in benign:
+                path = os.path.join(tmp, 'src', rel)
+                orig = open(path).read()
+                text = orig
+                missing = [old for old, new in edits if old not in text]
+                if missing:
+                    failures.append((bid, 'edit site not found in %s (the code has changed: update the entry)' % rel))
+                    print('%-40s SITE-NOT-FOUND' % bid)
+                    continue
+                for old, new in edits:
+                    text = text.replace(old, new, 1)
+                open(path, 'w').write(text)
+                try:
+                    rc, out = run_check(prop, repo=tmp, jobs=args.jobs)
+                finally:
+                    open(path, 'w').write(orig)
+                print('%-40s %s' % (bid, 'no alarm' if rc == 0 else 'ALARM (exit %d)' % rc))
+                if rc != 0:
+                    failures.append((bid, out[-1500:]))
+        finally:
+            shutil.rmtree(tmp, ignore_errors=True)
     for mid, why in failures:
         print('--- FAILURE', mid)
         print(why)
